@@ -379,7 +379,7 @@ func c02Model(r *rand.Rand) *openfgav1.AuthorizationModel {
 				p = &openfgav1.ConditionParamTypeRef{TypeName: []openfgav1.ConditionParamTypeRef_TypeName{openfgav1.ConditionParamTypeRef_TYPE_NAME_LIST, openfgav1.ConditionParamTypeRef_TYPE_NAME_MAP}[r.Intn(2)],
 					GenericTypes: []*openfgav1.ConditionParamTypeRef{p}}
 			}
-			pnames := []string{"x", "X", "y", "param_1", "p-q", "model", "type", "l", "L", "a", "b", "c", "d", "e", "f", "g1", "h_2"}
+			pnames := []string{"x", "X", "y", "param_1", "p-q", "model", "type", "l", "L", "a", "b", "c", "d", "e", "f", "g1", "h_2", "ip", "ip2", "ip-3", "p1", "p10", "p11", "p2"}
 			cd.Parameters[pnames[r.Intn(len(pnames))]] = p
 		}
 		if modular && r.Intn(2) == 0 {
